@@ -3,7 +3,7 @@ import Pcore.Proofs.SliceHeap
 C08 helper lemmas, part 2: one step of the heap interpreter under a safe table is one step of the pure interpreter
 (`step_refines`), hence whole runs (`run_refines`); the pure pool only ever grows at its end (`runPure_prefix`).
 -/
-namespace Pcore.Coll
+namespace Pcore.Heap
 
 /-- `produce` with a fresh-class idiom allocates -/
 theorem produce_fresh (P : Policy) (h : Heap) (i : Idiom) (site : String) (hint : Nat) (recv : Slice) (lo hi : Nat)
@@ -205,4 +205,4 @@ theorem content_abs (s : HState) (i : Nat) :
   | none => rfl
   | some e => cases e <;> rfl
 
-end Pcore.Coll
+end Pcore.Heap
